@@ -27,6 +27,14 @@ theorem blocks_concat (p : Padder) (hv : Valid p) (st : PadState) (hflag : st.pa
   obtain ⟨h1, h2, _⟩ := run_facts p hv st hflag m hm L hL hbg
   exact ⟨h1, by rw [h2, concat_eq_spec p hv st hfresh m hm L hL hbg]⟩
 
+/-- what is emitted is a byte string again (every value < 256), so block consumers may rely on it -/
+theorem blocks_bytes (p : Padder) (hv : Valid p) (st : PadState) (hflag : st.padflag = false)
+    (m : List Nat) (hm : Bytes m) (L : Option Nat) (hL : effLen m L ≤ 8 * m.length)
+    (hbg : L ≠ none → BitGranular p.scheme) :
+    Bytes (((p.iterblocks st m L true).yields.map (·.1)).flatten) := by
+  rw [(run_facts p hv st hflag m hm L hL hbg).2.1]
+  exact Bytes_append (Bytes_take hm _) (bitsToBytes_Bytes _)
+
 /-- every emitted block has B/8 bytes; only the unpadded scheme's last block may be shorter -/
 theorem blocks_length (p : Padder) (hv : Valid p) (st : PadState) (hflag : st.padflag = false)
     (m : List Nat) (hm : Bytes m) (L : Option Nat) (hL : effLen m L ≤ 8 * m.length)
